@@ -264,6 +264,8 @@ def run(ctx, res):
     # ---- NO-SRC-LAST-RESORT (shared with C29): go-to-definition reports byte columns only when the file cannot be read
     from . import c29 as _c29
     _c29.no_src_last_resort(ctx.P, res)
+    # ---- UTF16-UNITS (shared with C29): the columns of the positions the language server reports are UTF-16 counts
+    _c29.utf16_units(ctx.P, res)
     # ---- UNIT-MIX over the whole crate (byte offsets vs character counts)
     from .. import units as U
     U.check(ctx.P, res, "UNIT-MIX", ("",), 70)
